@@ -1,4 +1,4 @@
-import QtVerif.Proofs.SlaveGeneral
+import QtVerif.Proofs.SlaveExposed
 /-!
 C12 — The master's mirror of a slave follows the slave.
 
@@ -470,5 +470,165 @@ example : s0.queue = [] ∧ ∃ s' e, applyChange s0 (.setAttrs 1 [(0, 1), (5, 3
 -- (pending = the user's) is C13; here the repaired handler keeps 5 ↦ 21 while taking 0 from the slave
 example : (findPort (stepEvent Fix.repaired (editAttr (goOffline m0) 1 5 21).1
     (.portUpdate ⟨1, [(0, 0), (5, 30)], some (some 2)⟩)).ports 1).map (·.attrs) = some [(0, 0), (5, 21)] := by decide
+
+/-! ### 13. The value the master EXPOSES (`lastRead`, what GET /ports shows), not only the newest remote value
+
+`ExposedInv m`: for every port, when the remote queue is empty the exposed value is the cached one
+(`p.rq = [] → p.lastRead = p.cached`, i.e. `= p.lastRemote`). It is the hypothesis `hr` of `values_in_order` and the
+missing `rq = []` case of `reported_value_after_ticks`. -/
+
+/-- **Invariant along every run** of the combined action type `MAct` — listen batches / pushed events, ticks,
+going offline, refresh fetch, reconnect (`_handle_online`), pushed-events run (`_provision_and_update`), both parts
+of `_poll_once`, value-fetch answers, master-side edits of values, port attributes and device attributes — for the
+code as found and repaired. `GuardedRun`: value writes are made while the slave is online and a reconnect pushes
+pending values with a body the slave accepts (trivial when no value is pending). -/
+theorem exposed_value_invariant (fix : Fix) (m : Master) (l : List MAct) (h : ExposedInv m)
+    (hg : GuardedRun fix m l) : ExposedInv (mrun fix m l) :=
+  exposed_mrun fix l m h hg
+
+/-- It holds of the empty hub, hence of every master state reached by such a run. -/
+theorem exposed_value_from_start (fix : Fix) (mode : Mode) (l : List MAct)
+    (hg : GuardedRun fix (Master.init mode) l) : ExposedInv (mrun fix (Master.init mode) l) :=
+  exposed_mrun fix l _ (exposed_init mode) hg
+
+example : ExposedInv m0 := by
+  intro p hp
+  simp only [m0, Master.init, List.mem_cons, List.mem_nil_iff, or_false] at hp
+  rcases hp with rfl | rfl <;> intro h <;> first | rfl | cases h
+example : GuardedRun Fix.asFound m0
+    [.events [.valueChange 1 (some 8)], .tick, .editValue 1 3 true, .goOffline, .editAttr 1 5 21,
+     .reconnect [] (some []) (some [⟨1, [(0, 1)], some (some 4)⟩]), .pollPorts [⟨1, [(0, 1)], some none⟩], .tick] := by
+  decide
+
+/-- The guard on value writes is not superfluous: the OFFLINE write stores the user's value in `_cached_value`
+and leaves `_last_read_value` alone, so the master keeps exposing the old value 7 while the newest "remote" value
+it works with is 9 (until the reconnect queues the pushed value). That lag is the subject of C13. -/
+theorem exposed_broken_by_offline_write :
+    let m := (drain (goOffline m0)).2
+    let m' := (editValue m 1 9 true).1
+    (∀ p ∈ m.ports, p.rq = [] → p.lastRead = p.cached) ∧
+    (findPort m'.ports 1).map (fun p => (p.rq, p.lastRead, p.lastRemote)) = some ([], some 7, some 9) := by
+  decide
+
+/-- `reported_value_after_ticks` without `p.rq ≠ []`: after the hub's ticks an enabled port exposes its newest
+remote value, nothing is left queued, attributes and id are untouched. -/
+theorem reported_value_after_ticks_all (p : MPort) (he : p.enabled = true) (hx : p.rq = [] → p.lastRead = p.cached) :
+    (drainPort p.rq.length p).2.lastRead = p.lastRemote ∧ (drainPort p.rq.length p).2.rq = [] ∧
+    (drainPort p.rq.length p).2.attrs = p.attrs ∧ (drainPort p.rq.length p).2.id = p.id :=
+  exposed_after_ticks p he hx
+
+/-- `values_in_order` with `hr` discharged by the invariant. -/
+theorem values_in_order_exposed (fix : Fix) (m : Master) (id : Nat) (p : MPort) (vs : List PVal)
+    (hx : ExposedInv m) (hf : findPort m.ports id = some p) (hpv : p.provValue = false) (he : p.enabled = true) :
+    ∃ p', findPort (handleEvents fix m (vs.map (Ev.valueChange id))).ports id = some p' ∧
+      (drainPort p'.rq.length p').1 = dedupFrom p.lastRead (p.rq ++ vs) :=
+  reported_series fix id vs m p hf hpv he (hx p (findPort_mem hf))
+
+/-- **The drained mirror, on the exposed value.** Everything the slave reported has been processed (`Inv`, empty
+session queue), the exposed-value invariant holds; then for every port id the master has a port exactly when the
+slave has one, and after the hub's ticks an enabled port EXPOSES the slave's current value, with the slave's
+attributes, and nothing queued. -/
+theorem mirror_exposes_slave_values_after_drain (fix : Fix) (m : Master) (s : SlaveSt) (hi : Inv fix m s)
+    (hq : s.queue = []) (hx : ExposedInv m) (id : Nat) :
+    (findPort m.ports id).isSome = (findS s.ports id).isSome ∧
+    ∀ p q, findPort m.ports id = some p → findS s.ports id = some q → p.enabled = true →
+      (drainPort p.rq.length p).2.lastRead = q.value ∧ (drainPort p.rq.length p).2.attrs = q.attrs ∧
+      (drainPort p.rq.length p).2.rq = [] ∧ (drainPort p.rq.length p).2.id = q.id := by
+  have hs := synced_of_inv_drained fix hi hq
+  obtain ⟨h1, h2⟩ := synced_unfold hs id
+  refine ⟨h1, ?_⟩
+  intro p q hp hqq he
+  obtain ⟨hpi, hqi, ha, hv⟩ := h2 p q hp hqq
+  obtain ⟨e1, e2, e3, e4⟩ := exposed_after_ticks p he (hx p (findPort_mem hp))
+  exact ⟨e1.trans hv, e3.trans ha, e2, by rw [e4, hpi, hqi]⟩
+
+example : Inv Fix.asFound m0 s0 ∧ s0.queue = [] ∧ findPort m0.ports 1 = some ⟨1, [(0, 1), (5, 20)], [some 7], some 5, [], false, some 5, true⟩ ∧
+    findS s0.ports 1 = some ⟨1, [(0, 1), (5, 20)], some 7⟩ := by decide
+
+/-! ### 14. Presentation: `<slave>.<id>`, master-owned attributes excepted, expression/history attributes as `device_*`
+
+`Scheme` abstracts the names of qtoggleserver/slaves/ports.py over interned attribute names: `MASTER_ATTRS`
+(`masterOwned`), the `(device_)*expression` / `(device_)*history_*` family (`renamed`), `device_` ++ k (`dev`) and
+the stripping `name[7:]` of `get_attr` / `set_attr` (`undev`). `getAttr` is `SlavePort.get_attr`, `slaveName` the
+name mapping of `SlavePort.set_attr`, `presentKey` the name under which a slave attribute appears. -/
+
+/-- A slave attribute is shown under its presented name: `k` itself, or `device_k` for the expression/history
+family (so the slave's `expression` is the master's `device_expression`, its `device_expression` the master's
+`device_device_expression`, …). -/
+theorem shown_attr_is_slave_attr (sc : Scheme) (own cached : Attrs) (k n : Nat) (v : Int)
+    (hk : presentKey sc k = some n) (hv : cached.get? k = some v) : getAttr sc own cached n = some v :=
+  getAttr_presented sc own cached k n v hk hv
+
+/-- Master-owned names show the master's own attribute whatever the slave reports under that name. -/
+theorem master_owned_excepted (sc : Scheme) (own cached : Attrs) (n : Nat) (h : sc.masterOwned n = true) :
+    getAttr sc own cached n = own.get? n :=
+  getAttr_masterOwned sc own cached n h
+
+/-- The `device_` renaming loses nothing: no two slave attributes are shown under one name … -/
+theorem device_renaming_injective (sc : Scheme) (a b n : Nat) (ha : presentKey sc a = some n)
+    (hb : presentKey sc b = some n) : a = b :=
+  presentKey_inj sc a b n ha hb
+
+/-- … and `set_attr`'s name mapping inverts it: editing the shown name addresses the slave attribute it shows. -/
+theorem device_renaming_invertible (sc : Scheme) (k n : Nat) (h : presentKey sc k = some n) :
+    slaveName sc n = some k :=
+  slaveName_presentKey sc k n h
+
+/-- The `<slave>.<id>` id determines both the slave and the remote id. -/
+theorem slave_dot_id_injective (n1 n2 i1 i2 : Nat) (h : ((n1, i1) : Nat × Nat) = (n2, i2)) : n1 = n2 ∧ i1 = i2 :=
+  shown_id_inj n1 n2 i1 i2 h
+
+/-- **The shown view after the drain is the presentation of the slave's port**: id `<slave>.<id>`, every attribute
+as `get_attr` shows it (master-owned from the master, the others from the slave, the expression/history family
+under `device_*`), and the exposed value. -/
+theorem shown_mirror_eq_after_drain (fix : Fix) (sc : Scheme) (name : Nat) (own : Attrs) (m : Master) (s : SlaveSt)
+    (hi : Inv fix m s) (hq : s.queue = []) (hx : ExposedInv m) (id : Nat) (p : MPort) (q : SPort)
+    (hp : findPort m.ports id = some p) (hqq : findS s.ports id = some q) (he : p.enabled = true) :
+    shownM sc name own (drainPort p.rq.length p).2 = shownS sc name own q := by
+  obtain ⟨e1, e2, _, e4⟩ := (mirror_exposes_slave_values_after_drain fix m s hi hq hx id).2 p q hp hqq he
+  unfold shownM shownS
+  rw [e1, e2, e4]
+
+-- the example scheme: expression = 1 (shown as 101), 5 an ordinary attribute, 21 = tag (master-owned, not renamed)
+example : presentKey sc0 1 = some 101 ∧ presentKey sc0 101 = some 201 ∧ presentKey sc0 5 = some 5 ∧
+    presentKey sc0 21 = none ∧ slaveName sc0 101 = some 1 ∧ slaveName sc0 1 = none ∧ slaveName sc0 5 = some 5 := by
+  decide
+example : getAttr sc0 [(1, 70), (21, 3)] [(0, 1), (1, 40), (21, 9), (5, 20)] 1 = some 70 ∧
+    getAttr sc0 [(1, 70), (21, 3)] [(0, 1), (1, 40), (21, 9), (5, 20)] 101 = some 40 ∧
+    getAttr sc0 [(1, 70), (21, 3)] [(0, 1), (1, 40), (21, 9), (5, 20)] 21 = some 3 ∧
+    getAttr sc0 [(1, 70), (21, 3)] [(0, 1), (1, 40), (21, 9), (5, 20)] 5 = some 20 := by decide
+
+/-! ### 15. One step relation for everything — what is proved, what is not
+
+Proved for EVERY run of the combined `MAct` (§13): the exposed-value invariant. Proved per combination for the
+agreement with the slave:
+  remote change + listen batches, any interleaving ........ `inv_run` (steady state), `overlay_history` (any pending)
+  offline / online edits (attribute, value, device) ....... `overlay_edit_attr/value/dev`
+  going offline, reconnect (push + fetch) ................. `reconnect_resyncs`, `mirror_eq_after_drain_general`
+  pushed-events run ....................................... `pushed_sync_resyncs`, `pushed_step_resyncs`
+  polling ................................................. `poll_view`, `poll_converges`
+  ticks ................................................... do not touch `lastRemote`/attributes (`drained_lastRemote`)
+Not proved as ONE theorem: the overlay invariant along every run that interleaves all of the above with the
+slave's own history. -/
+
+/-- The statement that remains open: `OverlayInv` (replaying the still-queued session events on the mirror gives a
+mirror that follows the slave in everything that is not pending) is kept by a combined run in which remote changes
+and listen deliveries (`Step`) are interleaved with ticks, offline edits and going offline. (Reconnect / poll steps
+re-establish `Synced` outright by the theorems listed above; an ONLINE value write queues the written value before
+the slave has reported it and re-converges only with the slave's next event, so it is not part of this statement.) -/
+def mirrorInvariantAllStepsFull : Prop :=
+  ∀ (fix : Fix) (l : List (Step ⊕ MAct)) (m : Master) (s : SlaveSt),
+    (∀ a ∈ l, match a with
+      | .inl _ => True
+      | .inr (.tick) | .inr (.goOffline) | .inr (.editAttr _ _ _) | .inr (.editDev _ _) => True
+      | .inr _ => False) →
+    OverlayInv fix m s →
+    OverlayInv fix
+      (l.foldl (fun ms a => match a with
+        | .inl st => runStep fix ms st
+        | .inr act => (mact fix ms.1 act, ms.2)) (m, s)).1
+      (l.foldl (fun ms a => match a with
+        | .inl st => runStep fix ms st
+        | .inr act => (mact fix ms.1 act, ms.2)) (m, s)).2
 
 end QtVerif.Slave.C12
